@@ -1406,6 +1406,9 @@ def run_check(ctx):
     n_hist += n_eh
     ctx.notes.update(empty_wrapper_histories_enumerated=len(eh), empty_wrapper_histories_replayed=n_eh)
 
+    # ---- 4b. item access (spec PySeqItem): o[i], o[i] = v on classes with size()/operator[] and MAKE_SEQ_PROPERTY ----
+    from ._c02_seqitem import run_part as seqitem_part
+    sq = seqitem_part(ctx, work)
     # ---- 5. names, probes ----------------------------------------------------------------------------------
     try:
         bad, n_names, n_evals = f_names.result()
@@ -1428,8 +1431,8 @@ def run_check(ctx):
             ctx.violation("%s: %s" % (cid, b), dict(header=hdr, what=b, stat_key=cid), classes=[cid])
     pool.shutdown()
 
-    ctx.cov["evaluations"] = n_calls + n_hist + n_names + n_evals
-    ctx.cov["traces_validated_against_impl"] = n_calls + n_hist
+    ctx.cov["evaluations"] = n_calls + n_hist + n_names + n_evals + sq.get("steps", 0)
+    ctx.cov["traces_validated_against_impl"] = n_calls + n_hist + sq.get("histories", 0)
     ctx.cov["distinct_nontrivial"] = len(distinct) + n_hist
     ctx.cov["exhaustive"] = False
     ctx.cov["rule"] = ("TLC enumerates every overload set of the configured alphabets (<= 3 overloads x 1 parameter over all 20 "
